@@ -12,6 +12,9 @@ pub fn exec_oracle(kind: &str, fields: &[&str]) -> String {
         "S_C04" => oracle_c04(fields),
         "S_C07" => oracle_c07(fields),
         "S_C07M" => oracle_c07m(fields),
+        "S_C19A" => oracle_c19a(fields),
+        "S_C19D" => oracle_c19d(fields),
+        "S_C19C" => oracle_c19c(fields),
         "S_C18" => oracle_c18(fields),
         "S_C18R" => oracle_c18r(fields),
         "S_C18T" => oracle_c18t(fields),
@@ -1217,5 +1220,187 @@ fn oracle_c18t(fields: &[&str]) -> String {
     if let Some(p) = problems.first() {
         return format!("oracle FAIL {p} ({def})");
     }
+    "oracle pass".to_string()
+}
+
+// ----- C19: containers and angular encodings ----------------------------------------------------
+
+fn oracle_c19a(fields: &[&str]) -> String {
+    let x = parse_f(fields[0]);
+    if !x.is_finite() || x.abs() > 4.0e7 {
+        // out of the encodable range: must not panic, nothing more is promised
+        let _ = (angular::iso_dm_to_dd(x), angular::dd_to_iso_dm(x), angular::iso_dms_to_dd(x), angular::dd_to_iso_dms(x));
+        let _ = (angular::normalize_symmetric(x), angular::normalize_positive(x));
+        return "oracle pass".to_string();
+    }
+    // decimal degrees -> DDDMM.mmm -> decimal degrees, without loss beyond rounding
+    let tol = 1e-11 * x.abs().max(1.0);
+    let dm = angular::dd_to_iso_dm(x);
+    let back = angular::iso_dm_to_dd(dm);
+    if (back - x).abs() > tol {
+        return format!("oracle FAIL dd -> iso_dm -> dd: {x} became {back} (via {dm})");
+    }
+    let dms = angular::dd_to_iso_dms(x);
+    let back = angular::iso_dms_to_dd(dms);
+    if (back - x).abs() > tol {
+        return format!("oracle FAIL dd -> iso_dms -> dd: {x} became {back} (via {dms})");
+    }
+    // the encoding itself: DDD = whole degrees, MM.mmm = minutes, same sign
+    let d = x.abs().floor();
+    let m = (x.abs() - d) * 60.0;
+    let want = (d * 100.0 + m) * if x.is_sign_negative() { -1.0 } else { 1.0 };
+    if (dm - want).abs() > 1e-9 * want.abs().max(1.0) {
+        return format!("oracle FAIL dd_to_iso_dm({x}) = {dm}, expected {want}");
+    }
+    // normalisation: an equivalent angle in the stated range
+    let r = x.to_radians();
+    let pi = std::f64::consts::PI;
+    let ns = angular::normalize_symmetric(r);
+    let np = angular::normalize_positive(r);
+    let equiv = |a: f64, b: f64| {
+        let k = ((a - b) / (2.0 * pi)).round();
+        (a - b - k * 2.0 * pi).abs() < 1e-9
+    };
+    if !(ns >= -pi - 1e-12 && ns <= pi + 1e-12) || !equiv(ns, r) {
+        return format!("oracle FAIL normalize_symmetric({r}) = {ns}");
+    }
+    if !(np >= 0.0 && np < 2.0 * pi + 1e-12) || !equiv(np, r) {
+        return format!("oracle FAIL normalize_positive({r}) = {np}");
+    }
+    "oracle pass".to_string()
+}
+
+fn oracle_c19d(fields: &[&str]) -> String {
+    let d: i32 = fields[0].parse().unwrap_or(0);
+    let m: u16 = fields[1].parse().unwrap_or(0);
+    let s = parse_f(fields[2]);
+    let sign = if d < 0 { -1.0 } else { 1.0 };
+    let want = sign * ((d as f64).abs() + (m as f64 + s / 60.0) / 60.0);
+    let got = angular::dms_to_dd(d, m, s);
+    if (got - want).abs() > 1e-12 * want.abs().max(1.0) {
+        return format!("oracle FAIL dms_to_dd({d}, {m}, {s}) = {got}, expected {want}");
+    }
+    let mm = m as f64 + s / 60.0;
+    let want = sign * ((d as f64).abs() + mm / 60.0);
+    let got = angular::dm_to_dd(d, mm);
+    if (got - want).abs() > 1e-12 * want.abs().max(1.0) {
+        return format!("oracle FAIL dm_to_dd({d}, {mm}) = {got}, expected {want}");
+    }
+    "oracle pass".to_string()
+}
+
+fn same(a: f64, b: f64) -> bool {
+    a.to_bits() == b.to_bits() || (a.is_nan() && b.is_nan())
+}
+
+/// a user container implementing only the required trait methods (so that all defaults are used)
+struct Bare(Vec<Coor4D>);
+impl CoordinateSet for Bare {
+    fn len(&self) -> usize {
+        self.0.len()
+    }
+    fn dim(&self) -> usize {
+        4
+    }
+    fn get_coord(&self, index: usize) -> Coor4D {
+        self.0[index]
+    }
+    fn set_coord(&mut self, index: usize, value: &Coor4D) {
+        self.0[index] = *value;
+    }
+}
+
+fn oracle_c19c(fields: &[&str]) -> String {
+    let v: Vec<f64> = fields[0].split(',').map(parse_f).collect();
+    let c = Coor4D([v[0], v[1], v[2], v[3]]);
+    let (h0, t0) = (77.0, 2031.5);
+    macro_rules! check {
+        ($cond:expr, $($msg:tt)*) => { if !($cond) { return format!("oracle FAIL {}", format!($($msg)*)); } };
+    }
+    // 4D: vector, array, slice
+    let mut v4 = vec![Coor4D::origin(); 2];
+    v4.set_coord(1, &c);
+    let g = v4.get_coord(1);
+    check!((0..4).all(|i| same(g[i], c[i])), "Vec<Coor4D>: wrote {:?} read {:?}", c, g);
+    let mut a4 = [Coor4D::origin(); 2];
+    a4.set_coord(0, &c);
+    check!((0..4).all(|i| same(a4.get_coord(0)[i], c[i])), "[Coor4D; N] roundtrip");
+    {
+        let mut backing = vec![Coor4D::origin(); 2];
+        let mut s4: &mut [Coor4D] = &mut backing[..];
+        s4.set_coord(1, &c);
+        check!((0..4).all(|i| same(s4.get_coord(1)[i], c[i])), "&mut [Coor4D] roundtrip");
+        check!(same(s4.xy(1).0, c[0]) && same(s4.xyz(1).2, c[2]) && same(s4.xyzt(1).3, c[3]), "slice accessors");
+    }
+    // 3D: epoch reads as NaN
+    let mut v3 = vec![Coor3D::origin(); 2];
+    v3.set_coord(1, &c);
+    let g = v3.get_coord(1);
+    check!(same(g[0], c[0]) && same(g[1], c[1]) && same(g[2], c[2]) && g[3].is_nan(), "Vec<Coor3D>: read {:?} for {:?}", g, c);
+    // 2D: height 0, epoch NaN
+    let mut v2 = vec![Coor2D::origin(); 2];
+    v2.set_coord(0, &c);
+    let g = v2.get_coord(0);
+    check!(same(g[0], c[0]) && same(g[1], c[1]) && g[2] == 0.0 && g[3].is_nan(), "Vec<Coor2D>: read {:?} for {:?}", g, c);
+    // 32 bit 2D: values rounded to f32
+    let mut v32 = vec![Coor32::origin(); 1];
+    v32.set_coord(0, &c);
+    let g = v32.get_coord(0);
+    check!(same(g[0], c[0] as f32 as f64) && same(g[1], c[1] as f32 as f64) && g[2] == 0.0 && g[3].is_nan(), "Vec<Coor32>: read {:?} for {:?}", g, c);
+    // adapters
+    let mut ad3 = (vec![Coor3D::origin(); 1], t0);
+    ad3.set_coord(0, &c);
+    let g = ad3.get_coord(0);
+    check!(same(g[0], c[0]) && same(g[1], c[1]) && same(g[2], c[2]) && g[3] == t0, "(Vec<Coor3D>, t): read {:?}", g);
+    let mut ad2 = (vec![Coor2D::origin(); 1], h0, t0);
+    ad2.set_coord(0, &c);
+    let g = ad2.get_coord(0);
+    check!(same(g[0], c[0]) && same(g[1], c[1]) && g[2] == h0 && g[3] == t0, "(Vec<Coor2D>, h, t): read {:?}", g);
+    let (x, y, z) = ad2.xyz(0);
+    check!(same(x, g[0]) && same(y, g[1]) && same(z, g[2]), "(Vec<Coor2D>, h, t): xyz() gives ({x}, {y}, {z}) but get_coord gives {:?}", g);
+    let q = ad2.xyzt(0);
+    check!(same(q.2, h0) && same(q.3, t0), "(Vec<Coor2D>, h, t): xyzt()");
+    let mut ad23 = (vec![Coor3D::origin(); 1], h0, t0);
+    ad23.set_coord(0, &c);
+    let (x, y, z) = ad23.xyz(0);
+    let g = ad23.get_coord(0);
+    check!(same(x, g[0]) && same(y, g[1]) && same(z, g[2]) && g[2] == h0, "(Vec<Coor3D>, h, t): xyz() gives ({x}, {y}, {z}) but get_coord gives {:?}", g);
+    // fast paths against the trait defaults (a container implementing the required methods only)
+    let mut bare = Bare(vec![c, c]);
+    let mut fast = vec![c, c];
+    check!(same(bare.xy(0).0, fast.xy(0).0) && same(bare.xy(0).1, fast.xy(0).1), "xy fast path");
+    check!(same(bare.xyz(1).2, fast.xyz(1).2), "xyz fast path");
+    bare.set_xy(1, v[3], v[2]);
+    fast.set_xy(1, v[3], v[2]);
+    check!((0..4).all(|i| same(bare.get_coord(1)[i], fast.get_coord(1)[i])), "set_xy fast path: {:?} vs {:?}", bare.get_coord(1), fast.get_coord(1));
+    bare.set_xyz(0, v[1], v[0], v[3]);
+    fast.set_xyz(0, v[1], v[0], v[3]);
+    check!((0..4).all(|i| same(bare.get_coord(0)[i], fast.get_coord(0)[i])), "set_xyz fast path");
+    let mut f3 = vec![Coor3D::origin(); 1];
+    let mut f2 = vec![Coor2D::origin(); 1];
+    f3.set_xy(0, v[0], v[1]);
+    f2.set_xy(0, v[0], v[1]);
+    check!(same(f3.get_coord(0)[0], v[0]) && same(f2.get_coord(0)[1], v[1]), "set_xy on 3D / 2D containers");
+    // tuples: element access out of range gives NaN, never a crash; typed accessors agree
+    check!(c.nth(4).is_nan() && c.nth(usize::MAX).is_nan(), "Coor4D::nth out of range");
+    check!(Coor3D([v[0], v[1], v[2]]).nth(3).is_nan() && Coor2D([v[0], v[1]]).nth(2).is_nan(), "nth out of range");
+    check!(same(c.x(), c[0]) && same(c.y(), c[1]) && same(c.z(), c[2]) && same(c.t(), c[3]), "typed accessors");
+    check!(same(c.nth(2), c[2]) && same(c.xyzt().3, c[3]) && same(c.xy().1, c[1]), "bulk accessors");
+    let c2 = Coor2D([v[0], v[1]]);
+    check!(c2.z().is_nan() && c2.t().is_nan(), "missing dimensions of a 2D tuple");
+    let mut w = c;
+    w.set_nth(9, 1.0);
+    check!((0..4).all(|i| w[i].is_nan()), "set_nth out of range must fill NaN");
+    let mut w = c;
+    w.set_nth(2, 5.0);
+    check!(w[2] == 5.0 && same(w[0], c[0]) && same(w[3], c[3]), "set_nth");
+    // arithmetic operators are element-wise
+    let o = Coor4D([v[3], v[2], v[1], v[0]]);
+    let (s_, d_, p_, q_) = (c + o, c - o, c * o, c / o);
+    for i in 0..4 {
+        check!(same(s_[i], c[i] + o[i]) && same(d_[i], c[i] - o[i]) && same(p_[i], c[i] * o[i]) && same(q_[i], c[i] / o[i]), "arithmetic element {i}");
+    }
+    let sc = c.scale(2.0);
+    check!((0..4).all(|i| same(sc[i], c[i] * 2.0)), "scale");
     "oracle pass".to_string()
 }
